@@ -112,7 +112,15 @@ theorem cert_roundtrip (ko : KeyOracle) (c : Cert) (h : WFCert ko c) (t : Bytes)
   simp only [parseCert, headOk_cert c h.permData h.uuid h.small _ hlen, Bool.not_true, Bool.false_eq_true, if_false,
     readHead_spec c h.permData h.uuid h.small hso h.perm h.fuse, h.key, hdrop, parseSig_spec _ _ hsl]
   have h1 : ¬ (headSize + c.key0.length < c.sigOffset) := by rw [h.sigOffset]; omega
-  simp only [ne_eq, not_true_eq_false, if_false, h1, List.take_left']
+  have h2 : c.length = c.sigOffset + sigContainerLen c.sig0 := by
+    have hne : c.sig0.isEmpty = false := by
+      cases hs : c.sig0 with
+      | nil => exact absurd hs h.sigNe
+      | cons a r => rfl
+    simp only [sigContainerLen, hne, Bool.false_eq_true, if_false]
+    rw [h.length, h.sigOffset]
+  simp only [ne_eq, not_true_eq_false, if_false, h1, List.take_left', h2]
+  rw [← h2]
 
 
 /-! wrapper -/
@@ -130,10 +138,10 @@ theorem leEnc_take_drop4 (b : Bytes) (h : b.length = 12) :
       (apply UInt8.toNat_inj.mp; rw [UInt8.toNat_ofNat']; omega)
 
 theorem wrap_id (c : Cert) (h : c.permData.length = 12) : wrap c = .ok c := by
-  have he : DatConsts.v2CtorSoccExpr = "unpack('<L', certificate.permission_data[:4])[0] if len(certificate.permission_data) >= 4 else 0" := by decide
+  have he : DatConsts.v2CtorKeepsSocc = true := by decide
   have ht : c.permData.take 12 = c.permData := by rw [← h, List.take_length]
   have : ¬ c.permData.length < 12 := by omega
-  simp only [wrap, this, if_false, he, beq_self_eq_true, if_true, ht, permPack, permSocc, permSocu, permBeacon,
+  simp only [wrap, this, if_false, he, if_true, ht, permPack, permSocc, permSocu, permBeacon,
     leEnc_take_drop4 c.permData h]
 
 theorem permPack_length (a b c : Nat) : (permPack a b c).length = 12 := by simp [permPack, leEnc_length]
